@@ -57,6 +57,18 @@ def run(coro):
     return loop().run_until_complete(coro)
 
 
+def memoize_filter_parse() -> None:
+    """`flowfilter.parse` is a pure function of its string (the compiled filter is stateless) but costs
+    about 1 ms of pyparsing per call; the explorers re-apply the same two or three expressions
+    millions of times while replaying histories, so the harness process memoizes it."""
+    import functools
+
+    from mitmproxy import flowfilter
+
+    if not hasattr(flowfilter.parse, "cache_info"):
+        flowfilter.parse = functools.lru_cache(maxsize=64)(flowfilter.parse)
+
+
 def quiet_logging() -> None:
     """addons log through `logging`; the checks judge state, not log text"""
     logging.disable(logging.CRITICAL)
